@@ -79,6 +79,10 @@ impl Drop for ScratchDir {
 const WORDS: &[&str] = &[
     "a", "b", "ab", "ba", "abc", "cab", "aa", "bb", "c", "A", "Ab", "ab-c", "a_b", "b.", "a,", "(ab)", "c's", "ä", "äb", "ß", "é",
     "ab1", "12", "-", "b-a", "ﬁ", "a\u{0301}", "x",
+    // compatibility characters whose NFKC form contains a space (the token splits after normalisation)
+    "a\u{00a8}b", "x\u{203e}", "\u{00b4}",
+    // punctuation that file formats tend to give a meaning to (comments, separators, quotes, escapes)
+    "#a", "#", "a#b", ";b", "//", "%c", "\"a\"", "'b'", "a\\b", "@ab", "&", "*a*", "a=b", "a:b", "[c]", "{a}", "a|b", "~", "!", "?b",
 ];
 
 fn gen_line(rng: &mut Rng) -> String {
@@ -590,7 +594,7 @@ pub fn check(tier: Tier) -> i32 {
         stats: &rep.stats,
         exhaustive: None,
     });
-    println!(
+    out!(
         "C20 {}: {} runs ({} simulated processes), {} distinct non-trivial, {:.1}s, violations={}",
         tier.name(), rep.runs, rep.stats.processes, rep.nontrivial_distinct, rep.wall_s, newv
     );
